@@ -124,6 +124,19 @@ def jsValue (file : Str) : Option Str :=
       | _ => none
   else none
 
+/-- `query_text_as_single_quoted_js_string_body` (artifact_content/src/operation_text.rs): how the
+operation text is written between the quotes — the printer's backslash+LF line continuations are
+kept, every other backslash and every apostrophe (they come from string arguments) is escaped -/
+def escapeJs : Str → Str
+  | [] => []
+  | 92 :: 10 :: rest => 92 :: 10 :: escapeJs rest
+  | 92 :: rest => 92 :: 92 :: escapeJs rest
+  | 39 :: rest => 92 :: 39 :: escapeJs rest
+  | c :: rest => c :: escapeJs rest
+
+/-- the query_text.ts the compiler writes for an operation text -/
+def queryTextFile (text : Str) : Str := exportDefault ++ escapeJs text ++ cs!"';"
+
 /-- what the compiler embeds: the text between `export default '` and the final `';` -/
 def embeddedRaw (file : Str) : Option Str :=
   let s := skipTrivia (file.length + 1) file
